@@ -264,6 +264,8 @@ def items(tier_thorough, family):
         return corpus.ta1_docs()
     if family == 'address':
         return corpus.address_docs()
+    if family == 'mixed':
+        return corpus.mixed_docs()
     if family == 'mutant':
         def gen_():
             bases = [it for it in corpus.suite_docs() if it[0] in ('suite:simple_837p', 'suite:834_lui_id_5010', 'suite:mult_isa')]
@@ -314,7 +316,7 @@ def materialise(thorough, families):
 
 def run(R):
     shards = []
-    for fam, n in (('valid', 16), ('fault', 32), ('shape', 16), ('suite', 4), ('envelope', 16), ('ta1', 4), ('address', 4), ('mutant', 48)):
+    for fam, n in (('valid', 16), ('fault', 32), ('shape', 16), ('suite', 4), ('envelope', 16), ('ta1', 4), ('address', 4), ('mixed', 8), ('mutant', 48)):
         for p in range(n):
             shards.append((fam, p, n, R.thorough))
     materialise(R.thorough, sorted(set(s[0] for s in shards)))
@@ -323,7 +325,7 @@ def run(R):
     R.bounds = {'valid': 'per map: min, all, all-filled, 2 sets/groups/interchanges, last codes' + (' + every d<=1 plan' if R.thorough else ''),
                 'fault': 'per map one target per C03 fault kind' + (' / per definition signature' if R.thorough else ''),
                 'shape': '{1,2,3}^3 interchanges x groups x sets for two maps, clean and with a faulty first/middle/last set',
-                'suite': 'all sources of pyx12.test.x12testdata', 'ta1': '1..3 interchanges of two maps, every non-empty subset of them asking for a TA1 (ISA14=1)', 'address': 'sender and receiver under different id qualifiers (ISA05 != ISA07: 30/ZZ, ZZ/01, 01/30), 1 and 2 interchanges, three maps', 'envelope': 'one envelope discrepancy (reused ISA13/GS06/ST02, wrong trailer id, count +1/-1/x) at every header and trailer of 1x1x3 and 2x2x2 documents of two maps', 'mutant': 'every single structural mutation (corpus.mutations) of %s base documents' % ('3 + every minimal document' if R.thorough else '3')}
+                'suite': 'all sources of pyx12.test.x12testdata', 'ta1': '1..3 interchanges of two maps, every non-empty subset of them asking for a TA1 (ISA14=1)', 'mixed': 'files of two interchanges of different maps / versions (4 maps, every ordered pair), clean and with a faulty last set', 'address': 'sender and receiver under different id qualifiers (ISA05 != ISA07: 30/ZZ, ZZ/01, 01/30), 1 and 2 interchanges, three maps', 'envelope': 'one envelope discrepancy (reused ISA13/GS06/ST02, wrong trailer id, count +1/-1/x) at every header and trailer of 1x1x3 and 2x2x2 documents of two maps', 'mutant': 'every single structural mutation (corpus.mutations) of %s base documents' % ('3 + every minimal document' if R.thorough else '3')}
     R.assumptions = ['documents on which validation raises are C07 matters and skipped here (counted)',
                      'AK404/IK404 equality is not demanded when the value contains an acknowledgement delimiter (C06 covers that)',
                      'AK902 compared only when GE01 is numeric and the group was closed by a GE']
